@@ -102,4 +102,5 @@ func (rb *RingBuffer[T]) Len() (l uint) {
 func (rb *RingBuffer[T]) Clear() {
 	rb.full = false
 	rb.cur = 0
+	clear(rb.buf)
 }
